@@ -3,7 +3,7 @@ import z3
 
 from pyvc.core import EngineError
 from pyvc.interp import LoopSpec, Spec
-from pyvc.models import SymSeq, PyList, TAtom
+from pyvc.models import SymSeq, PyList, TAtom, Namespace
 from pyvc.values import Atom, PyRaise, ExcVal, PyObj, Model, Builtin
 from pyvc.runner import Unit
 from . import client_model as CM
@@ -157,6 +157,8 @@ def u_proto_send_queued(ctx, index):
   except PyRaise as e:
     raised = e.exc
   ctx.cover('sendQueued/returns')
+  if h.log.of('transport.loseConnection'):
+    ctx.cover('sendQueued/quality_reset')
   ctx.check('C07/sendQueued/no_raise', z3.BoolVal(raised is None))
   no_already_called(ctx, h, 'C07/sendQueued')
   if raised is not None:
@@ -250,6 +252,80 @@ def u_resume_pause(ctx, index):
     ctx.cover('pauseProducing/returns')
     ctx.check('C07/pauseProducing/only_sets_the_flag', z3.And(as_b(h.protocol.fields['paused']), h.queue.term == old,
                                                                z3.BoolVal(not h.sent_strings)))
+
+
+def u_orderly_stop(ctx, index):
+  """C07 "an orderly stop closes a connected destination only after its queue has been
+  transmitted": factory.disconnect() from an arbitrary state.  The connection is closed inside this
+  call iff the queue is already empty; otherwise the close is left to the queueEmpty deferred, which
+  checkQueue fires only on an empty queue (C07/checkQueue/queueEmpty_fires_iff_empty)."""
+  h = ClientHarness(ctx, index)
+  h.factory.fields['started'] = ctx.choose(2, 'started') == 1
+  if h.protocol is not None:
+    h.protocol.fields['connected'] = ctx.choose(2, 'protocol.connected') == 1
+  qe = h.queueEmpty
+  old = h.queue.term
+  n0 = h.queue.length()
+  ncb = len(qe.callbacks)
+  try:
+    r = h.ip.run(FACTORY + '.disconnect', [], self_obj=h.factory)
+  except PyRaise as e:
+    ctx.check('C07/disconnect/no_raise', z3.BoolVal(False))
+    return
+  ctx.cover('disconnect/returns')
+  ctx.check('C07/disconnect/no_raise', z3.BoolVal(True))
+  closes = h.log.of('transport.loseConnection')
+  ctx.check('C07/disconnect/queue_untouched', h.queue.term == old)
+  ctx.check('C07/disconnect/closes_only_with_empty_queue', z3.Implies(z3.BoolVal(len(closes) > 0), n0 == 0))
+  ctx.check('C07/disconnect/at_most_one_close', z3.BoolVal(len(closes) <= 1))
+  ctx.check('C07/disconnect/stop_waits_for_the_queue', z3.BoolVal(len(qe.callbacks) == ncb + 1))
+  ctx.check('C07/disconnect/returns_a_deferred', z3.BoolVal(isinstance(r, Deferred)))
+  no_already_called(ctx, h, 'C07/disconnect')
+  # empty queue and a live connection: closed now, and the factory stops reconnecting
+  if len(closes) > 0:
+    ctx.cover('disconnect/closed_now')
+    ctx.check('C07/disconnect/stops_reconnecting', z3.BoolVal(len(h.log.of('stopTrying')) == 1 and h.factory.fields['started'] is False))
+    ctx.check('C07/disconnect/close_marks_disconnected', z3.BoolVal(h.protocol.fields['connected'] is False))
+  # the later firing: a non-empty queue at stop time leaves the close to checkQueue
+  if len(closes) == 0 and h.protocol is not None:
+    h2n = h.queue.length()
+    try:
+      h.ip.run(FACTORY + '.checkQueue', [], self_obj=h.factory)
+    except PyRaise as e:
+      ctx.check('C07/disconnect/later_checkQueue_does_not_raise', z3.BoolVal(False))
+      return
+    ctx.check('C07/disconnect/later_checkQueue_does_not_raise', z3.BoolVal(True))
+    closes2 = h.log.of('transport.loseConnection')
+    ctx.cover('disconnect/then_checkQueue')
+    ctx.check('C07/disconnect/later_close_only_with_empty_queue', z3.Implies(z3.BoolVal(len(closes2) > 0), h2n == 0))
+
+
+def u_quality_monitor(ctx, index):
+  """connectionQualityMonitor is a pure query: it touches neither the queue nor the connection and
+  returns a boolean (call sites use the contract: an arbitrary boolean).  Precondition
+  MIN_RESET_STAT_FLOW > 0 (with 0 the ratio of two zero counters would be computed)."""
+  h = ClientHarness(ctx, index, connected=True)
+  h.no_monitor_spec()
+  ctx.assume(h.settings.attrs['MIN_RESET_STAT_FLOW'] > 0)
+  sent = ctx.fresh(z3.RealSort(), 'prior_sent')
+  recv = ctx.fresh(z3.RealSort(), 'prior_received')
+  ctx.assume(z3.And(sent >= 0, recv >= 0))
+  h.instr.attrs['prior_stats'] = Namespace('prior_stats', {'get': Builtin('get', lambda ip, a, k: sent if a[0] == 'sent' else recv)})
+  old = h.queue.term
+  n_log = len(h.log.events)
+  raised = None
+  try:
+    r = h.ip.run(PROTO + '.connectionQualityMonitor', [], self_obj=h.protocol)
+  except PyRaise as e:
+    raised = e.exc
+  ctx.cover('monitor/returns')
+  ctx.check('C07/connectionQualityMonitor/no_raise', z3.BoolVal(raised is None))
+  if raised is not None:
+    return
+  ctx.check('C07/connectionQualityMonitor/returns_bool', z3.BoolVal(isinstance(r, bool) or (z3.is_expr(r) and z3.is_bool(r))))
+  ctx.check('C07/connectionQualityMonitor/queue_untouched', h.queue.term == old)
+  effects = [e[0] for e in h.log.events[n_log:] if e[0] not in ('instrumentation.increment',)]
+  ctx.check('C07/connectionQualityMonitor/pure', z3.BoolVal(not effects and h.protocol.fields['connected'] is True))
 
 
 # ---- destinationDown: re-injection --------------------------------------------------------------
@@ -469,8 +545,9 @@ def _all_units():
     Unit('client.scheduleSend', u_schedule_send, [F + '.scheduleSend'], expect_covers=['scheduleSend/returns'], replay=replay_client,
          native_clauses=['C07/scheduleSend/timer_runs_sendQueued', 'C09/scheduleSend/a_send_is_pending_afterwards']),
     Unit('client.protocol.sendQueued', u_proto_send_queued,
-         [PROTO + '.sendQueued', PROTO + '.sendDatapointsNow', F + '.checkQueue', F + '.queueSpaceCallback', PICKLE_P + '._sendDatapointsNow'],
-         expect_covers=['sendQueued/returns', 'sendQueued/idle', 'sendQueued/sent'], replay=replay_client,
+         [PROTO + '.sendQueued', PROTO + '.sendDatapointsNow', PROTO + '.resetConnectionForQualityReasons', PROTO + '.disconnect',
+          F + '.checkQueue', F + '.queueSpaceCallback', PICKLE_P + '._sendDatapointsNow'],
+         expect_covers=['sendQueued/returns', 'sendQueued/idle', 'sendQueued/sent', 'sendQueued/quality_reset'], replay=replay_client,
          native_clauses=['C07/sendQueued/written_is_the_queue_prefix', 'C07/sendQueued/rest_is_rescheduled', 'C07/sendQueued/no_raise',
                          'C09/sendQueued/I_bp_relay']),
     Unit('client.queueSpaceCallback', u_queue_space_callback, [F + '.queueSpaceCallback'], expect_covers=['queueSpaceCallback/returns'], replay=replay_client,
@@ -478,6 +555,10 @@ def _all_units():
     Unit('client.queueFullCallback', u_queue_full_callback, [F + '.queueFullCallback'], expect_covers=['queueFullCallback/returns']),
     Unit('client.checkQueue', u_check_queue, [F + '.checkQueue'], expect_covers=['checkQueue/returns'], replay=replay_client,
          native_clauses=['C07/checkQueue/queueEmpty_fires_iff_empty', 'C07/checkQueue/no_AlreadyCalledError']),
+    Unit('client.orderly_stop', u_orderly_stop, [F + '.disconnect', F + '.stopConnecting', PROTO + '.disconnect', F + '.checkQueue'],
+         expect_covers=['disconnect/returns', 'disconnect/closed_now', 'disconnect/then_checkQueue'], replay=replay_client,
+         native_clauses=['C07/disconnect/closes_only_with_empty_queue']),
+    Unit('client.connectionQualityMonitor', u_quality_monitor, [PROTO + '.connectionQualityMonitor'], expect_covers=['monitor/returns']),
     Unit('client.resume_pause', u_resume_pause, [PROTO + '.resumeProducing', PROTO + '.pauseProducing'],
          expect_covers=['resumeProducing/returns', 'pauseProducing/returns'], replay=replay_client,
          native_clauses=['C09/resumeProducing/I_bp_relay']),
